@@ -1577,7 +1577,7 @@ func (u *Unit) typeAssert(st *State, fr *Frame, in *ssa.TypeAssert) ([]Outcome, 
 			}
 			s2 := st.clone()
 			s2.assume(c)
-			if kt == nil && !u.feasible(s2) {
+			if kt == nil && !(u.specMode > 0 && specNoPrune) && !u.feasible(s2) {
 				continue
 			}
 			var v Value
@@ -1602,7 +1602,7 @@ func (u *Unit) typeAssert(st *State, fr *Frame, in *ssa.TypeAssert) ([]Outcome, 
 			}
 			return outs, true
 		}
-		if u.feasible(s3) {
+		if (u.specMode > 0 && specNoPrune) || u.feasible(s3) {
 			outs = append(outs, mk(s3, u.zero(s3, in.AssertedType), False))
 		}
 		return outs, true
